@@ -14,6 +14,7 @@ pub mod c01;
 pub mod c03;
 pub mod c04;
 pub mod c06;
+pub mod c09;
 pub mod sem;
 pub mod c18;
 
@@ -98,9 +99,10 @@ pub fn get(id: &str) -> Option<Box<dyn Check>> {
         "C03" => Some(Box::new(c03::C03)),
         "C04" => Some(Box::new(c04::C04)),
         "C06" => Some(Box::new(c06::C06)),
+        "C09" => Some(Box::new(c09::C09)),
         "C18" => Some(Box::new(c18::C18)),
         _ => None,
     }
 }
 
-pub const ALL: &[&str] = &["C01", "C03", "C04", "C06", "C18"];
+pub const ALL: &[&str] = &["C01", "C03", "C04", "C06", "C09", "C18"];
